@@ -172,6 +172,7 @@ pub mod file_log_writer {
     //@   ens[FileLogWriter::write.post.handed_over] level_num(record_level(record)) <= filter_num(self.ceiling()) ==> r == sh_write_result(record)
     //@   canary
     //@ fn src/writers/file_log_writer.rs impl LogWriter for FileLogWriter / fn max_log_level
+    //@   fallback src/writers/log_writer.rs trait LogWriter / fn max_log_level
     //@   ret r
     //@   props C13,C02
     //@   ens[FileLogWriter::max_log_level.post] r == self.ceiling()
@@ -180,13 +181,16 @@ pub mod file_log_writer {
     //@   props C04
     //@   ens[FileLogWriter::flush.post] r == sh_flush_result() && sh_flushed()
     //@ fn src/writers/file_log_writer.rs impl LogWriter for FileLogWriter / fn shutdown
+    //@   fallback src/writers/log_writer.rs trait LogWriter / fn shutdown
     //@   props C04
     //@   ens[FileLogWriter::shutdown.post] sh_shut()
     //@ fn src/writers/file_log_writer.rs impl LogWriter for FileLogWriter / fn reopen_output
+    //@   fallback src/writers/log_writer.rs trait LogWriter / fn reopen_output
     //@   ret r
     //@   props C18
     //@   ens[FileLogWriter::reopen_output.post] r == sh_reopen_result() && sh_reopened()
     //@ fn src/writers/file_log_writer.rs impl LogWriter for FileLogWriter / fn rotate
+    //@   fallback src/writers/log_writer.rs trait LogWriter / fn rotate
     //@   ret r
     //@   rename rotate_as_log_writer
     //@   props C08
